@@ -583,6 +583,45 @@ func c06(r *lp.Run) {
 		}
 	}
 
+	// A'. a header array named Set-Cookie is written as one line per item (RFC 6265) and read from all lines
+	for _, items := range [][]string{{"a=1"}, {"a=1", "b=2"}, {"a=1; Path=/", "b=2; Expires=Wed, 21 Oct 2015 07:28:00 GMT", "c=3"}, {"x,y", "z"}} {
+		for _, name := range []string{"Set-Cookie", "set-cookie"} {
+			h := http.Header{}
+			out := lp.Guard(func() string {
+				err := uri.NewHeaderEncoder(h).EncodeParam(uri.HeaderParameterEncodingConfig{Name: name, Explode: false}, func(e uri.Encoder) error {
+					return e.EncodeArray(func(e uri.Encoder) error {
+						for _, it := range items {
+							if err := e.EncodeValue(it); err != nil {
+								return err
+							}
+						}
+						return nil
+					})
+				})
+				if err != nil {
+					return "enc-err"
+				}
+				var got []string
+				err = uri.NewHeaderDecoder(h).DecodeParam(uri.HeaderParameterDecodingConfig{Name: name, Explode: false}, func(d uri.Decoder) error {
+					return d.DecodeArray(func(d uri.Decoder) error {
+						v, err := d.DecodeValue()
+						got = append(got, v)
+						return err
+					})
+				})
+				if err != nil {
+					return "dec-err"
+				}
+				return strings.Join(got, "\x00")
+			})
+			r.PropCheck()
+			r.Count("setcookie "+name+strings.Join(items, "|"), "set-cookie-array", true)
+			if out != "enc-err" && out != strings.Join(items, "\x00") {
+				r.Fail(lp.PropFail{Property: "C06", What: "a Set-Cookie header array is not read back as it was written", Input: map[string]any{"name": name, "items": items}, Observed: out, Expected: strings.Join(items, " | ")})
+			}
+		}
+	}
+
 	// B. values
 	alpha := []string{"", "a", ",", ".", ";", "=", "|", " ", "%", "/", "é", "a,b", "[", "]", "&", "+", "\"", "%2C"}
 	if !r.Thorough() {
